@@ -419,6 +419,9 @@ class SymCaller:
     def getattr(self, obj, name):
         return self.I.getattr_(obj, name)
 
+    def setattr(self, obj, name, value):
+        return self.I.setattr_(obj, name, value)
+
     def attempt(self, fn, *args, **kwargs):
         """-> ('ok', value) | ('exc', exception object): lets a lemma harness go on after a rejected call"""
         try:
@@ -445,6 +448,9 @@ class RealCaller:
 
     def getattr(self, obj, name):
         return getattr(obj, name)
+
+    def setattr(self, obj, name, value):
+        return setattr(obj, name, value)
 
     def attempt(self, fn, *args, **kwargs):
         try:
